@@ -351,7 +351,7 @@ def listing(dec):
             else:
                 other.append(n)
         out.append((g["name"], finals, temps, other))
-    return out, [j["name"] for j in dec.get("junk", [])]
+    return out, [j["name"] for j in dec.get("junk", []) if not j["name"].startswith(".")]     # hidden root entries are ignored by the listing
 
 
 def abstract_groups(dec, hash_ids):
